@@ -64,6 +64,21 @@ def perturbations(r, w, mode):
     if empties:
         empties[r.randrange(len(empties))][b"md5sum"] = vfy.md5hex(b"something else")
         yield "wrong md5sum on a zero-length entry, right pieces", x, True, None
+    # some entries list an MD5 and others do not: every listed one is checked (added after seeded change C03-17: the digests were
+    # computed only when ALL entries list one)
+    if w.multi and len(w.info[b"files"]) >= 2:
+        x = clone()
+        for e, (c, d) in zip(x.info[b"files"], x.files):
+            e[b"md5sum"] = vfy.md5hex(d)
+        order = list(range(len(x.info[b"files"]))); r.shuffle(order)
+        x.info[b"files"][order[0]].pop(b"md5sum", None)
+        x.info[b"files"][order[1]][b"md5sum"] = vfy.md5hex(b"something else")
+        yield "md5sum on some entries only, one of them wrong, right pieces", x, True, None
+        x = clone()
+        for e, (c, d) in zip(x.info[b"files"], x.files):
+            e[b"md5sum"] = vfy.md5hex(d)
+        x.info[b"files"][order[0]].pop(b"md5sum", None)
+        yield "md5sum on some entries only, all right", x, True, None
     x = clone()
     for e in (x.info[b"files"] if x.multi else [x.info]):
         if b"md5sum" in e:
